@@ -395,8 +395,12 @@ func hasLevels(lv []int) bool {
 // reference tree minus one result (recall) ; self retrieval must always succeed.
 const recallFloor = 0.5
 
-// selfFloor: fraction of the vectors of one index that must be found by their own value.
-const selfFloor = 0.8
+// selfFloor: fraction of the vectors of one index that must be found by their own value. In this
+// family the beam (ef = 8) is at least as large as the index (6 or 7 points): the search visits
+// everything that is reachable from the entry point, so a vector that is not found is a node
+// without a path to it - the floor is the whole index, which is also what the reference tree
+// reaches on every member of the family.
+const selfFloor = 1.0
 
 func recallFamily(c *vk.Ctx) {
 	pts := [][]float32{{0, 0}, {1, 0}, {0, 1}, {1, 1}, {2, 0.5}, {3, 3}, {-1, 2}, {0.5, 0.5}, {4, 0}}
